@@ -13,6 +13,27 @@ Combined Scheme fragment_mutind from word_mind, part_mind, dq_mind, words_mind, 
 Lemma norm_stmts_nil : forall l, match norm_stmts l with SNil => l = SNil | SCons _ _ _ _ _ => l <> SNil end.
 Proof. destruct l; cbn; [reflexivity|discriminate]. Qed.
 
+Lemma unquote_dq_strip_len : forall n s, (length s <= n)%nat -> unquote_dq (strip_escnl_dq s) = unquote_dq s.
+Proof.
+  induction n as [|n IH]; intros s Hl.
+  - destruct s; [reflexivity|cbn in Hl; lia].
+  - destruct s as [|b t]; [reflexivity|]. cbn [strip_escnl_dq unquote_dq].
+    destruct (b =? BSL) eqn:Hb.
+    + destruct t as [|c t']; [cbn; rewrite Hb; reflexivity|].
+      destruct (c =? NL) eqn:Hc.
+      * apply IH. cbn in Hl. lia.
+      * assert (Ht' : unquote_dq (strip_escnl_dq t') = unquote_dq t') by (apply IH; cbn in Hl; lia).
+        cbn [unquote_dq]. rewrite Hb, Hc.
+        destruct ((c =? DQ) || (c =? BSL) || (c =? DOLLAR) || (c =? BQ)) eqn:Hs.
+        -- rewrite Ht'. reflexivity.
+        -- assert (Hcb : (c =? BSL) = false).
+           { destruct (c =? DQ); [discriminate|]. destruct (c =? BSL); [discriminate|reflexivity]. }
+           cbn [unquote_dq]. rewrite Hcb. rewrite Ht'. reflexivity.
+    + cbn [unquote_dq]. rewrite Hb. f_equal. apply IH. cbn in Hl. lia.
+Qed.
+Lemma unquote_dq_strip : forall s, unquote_dq (strip_escnl_dq s) = unquote_dq s.
+Proof. intros s. apply (unquote_dq_strip_len (length s)). apply le_n. Qed.
+
 Section SemProofs.
   Variable State : Type.
   Variable lookup : State -> str -> str.
@@ -139,7 +160,11 @@ Section SemProofs.
     - (* PParam *) reflexivity.
     - (* PSub *) intros bq b Hb fuel s. cbn [norm_part]. rewrite !sp_sub. rewrite Hb. reflexivity.
     - reflexivity.
-    - (* DLit *) intros t r Hr fuel s. cbn [norm_dq]. rewrite !sd_lit. rewrite Hr. reflexivity.
+    - (* DLit *) intros t r Hr fuel s. cbn [norm_dq]. rewrite sd_lit.
+      rewrite <- (unquote_dq_strip t).
+      destruct (strip_escnl_dq t) as [|c t'] eqn:Est.
+      + rewrite Hr. destruct (sd fuel r s) as [[b s2]|]; reflexivity.
+      + rewrite sd_lit. rewrite Hr. reflexivity.
     - (* DParam *) intros br n r Hr fuel s. cbn [norm_dq]. rewrite !sd_param. rewrite Hr. reflexivity.
     - (* DSub *) intros bq b Hb r Hr fuel s. cbn [norm_dq]. rewrite !sd_sub. rewrite Hb.
       destruct (sss fuel b s) as [s1 o z|]; [|reflexivity]. rewrite Hr. reflexivity.
